@@ -2,7 +2,7 @@
 LEVEL = "proof"
 VERUS = []
 M = "execution/disk_manager.rs"
-KANI = [dict(package="datafusion-execution", module=M, timeout=2400, harnesses=[
+KANI = [dict(package="datafusion-execution", module=M, timeout=900, harnesses=[
     dict(name="c21_write_accounting", complete=True,
          stubs_required=["write", "format"],
          what="FileSpillWriter::write over the full u64 domain of (limit, global usage, file usage) with the underlying File::write failing nondeterministically: Ok => both counters += len and <= limit; Err (quota or failed write) => both unchanged"),
